@@ -26,6 +26,8 @@ import (
 	"runtime"
 	"strconv"
 	"strings"
+	"sync"
+	"time"
 
 	"diagonal.works/b6/osm"
 	pb "diagonal.works/b6/osm/proto"
@@ -389,12 +391,31 @@ func roundTrip(c *hx.Ctx, es []osm.Element) {
 	if strings.HasPrefix(ans, "err") || ans == "panic" {
 		return
 	}
-	data := buf.Bytes()
+	readBack(c, es, buf.Bytes(), nil)
+}
+
+// readBack reads the file with 1, 2 and 8 goroutines. For more than one goroutine the answer also carries
+// the order in which the callback was entered across goroutines (run-length coded goroutine indices, taken
+// under a mutex at callback entry). slow != nil makes the callback sleep after it has recorded the given
+// element index of goroutine-local order, to force a schedule.
+func readBack(c *hx.Ctx, es []osm.Element, data []byte, slow func(cores int, e osm.Element) time.Duration) {
 	for _, cores := range []int{1, 2, 8} {
 		streams := make([][]osm.Element, cores)
+		var mu sync.Mutex
+		var order []int
 		emit := func(e osm.Element, g int) error {
+			if cores > 1 {
+				mu.Lock()
+				order = append(order, g)
+				mu.Unlock()
+			}
 			streams[g] = append(streams[g], cloneElem(e)) // goroutine g is the only writer of streams[g]
 			if cores > 1 {
+				if slow != nil {
+					if d := slow(cores, e); d > 0 {
+						time.Sleep(d)
+					}
+				}
 				runtime.Gosched() // let the other reader goroutines take blocks too
 			}
 			return nil
@@ -436,6 +457,26 @@ func roundTrip(c *hx.Ctx, es []osm.Element) {
 			o.w(fmt.Sprintf("fl=%d", fl))
 		} else {
 			c.Note(fmt.Sprintf("cores%d-goroutines-used:%d", cores, used))
+			// run-length coded callback order
+			o.w("o")
+			var runs [][2]int
+			for _, g := range order {
+				if len(runs) > 0 && runs[len(runs)-1][0] == g {
+					runs[len(runs)-1][1]++
+				} else {
+					runs = append(runs, [2]int{g, 1})
+				}
+			}
+			o.n(len(runs))
+			for _, r := range runs {
+				o.n(r[0])
+				o.n(r[1])
+			}
+			if len(runs) > used {
+				c.Note(fmt.Sprintf("cores%d-callback-order:interleaved", cores))
+			} else {
+				c.Note(fmt.Sprintf("cores%d-callback-order:stream-after-stream", cores))
+			}
 		}
 		c.Op(fmt.Sprintf("read %d", cores), o.String())
 	}
@@ -757,6 +798,36 @@ func main() {
 				&osm.Way{ID: -1, Nodes: []osm.NodeID{math.MaxInt64, math.MinInt64, 0}, Tags: osm.Tags{{Key: "a", Value: "a"}}},
 				&osm.Relation{ID: 0, Members: []osm.Member{{Type: osm.ElementTypeRelation, ID: math.MinInt64, Role: ""}, {Type: osm.ElementTypeWay, ID: math.MaxInt64, Role: "outer"}}},
 				&osm.Node{ID: 5, Location: osm.LatLng{Lat: 1e-10, Lng: -1e-10}},
+			})
+			// finding cores-gt1-cross-block-order: two nodes and a way are two blocks; the callback sleeps after
+			// the first node, so with 2 or 8 goroutines the way (read by another goroutine) is seen before the
+			// second node: the callback order is not the file order
+			witness := []osm.Element{
+				&osm.Node{ID: 1, Location: osm.LatLng{Lat: 1, Lng: 1}},
+				&osm.Node{ID: 2, Location: osm.LatLng{Lat: 2, Lng: 2}},
+				&osm.Way{ID: 3, Nodes: []osm.NodeID{1, 2}},
+			}
+			var buf bytes.Buffer
+			w, _ := osm.NewWriter(&buf)
+			t := &tw{}
+			t.n(len(witness))
+			for _, e := range witness {
+				w.WriteElement(e)
+				writeElem(t, e, nano)
+			}
+			w.Flush()
+			blocks, _ := parseFile(buf.Bytes())
+			o := &tw{}
+			o.n(len(blocks))
+			for _, b := range blocks {
+				dumpBlock(o, b)
+			}
+			c.Op("write "+t.String(), o.String())
+			readBack(c, witness, buf.Bytes(), func(cores int, e osm.Element) time.Duration {
+				if n, ok := e.(*osm.Node); ok && n.ID == 1 {
+					return 300 * time.Millisecond
+				}
+				return 0
 			})
 			c.NonTrivial()
 		},
